@@ -297,6 +297,7 @@ def run(ctx):
         beta = float(rng.integers(2, 9)) if j % 2 else rng.integers(2, 9, size=T).astype(np.float64)
         step_cases.append({"stream": "ints", "table": tab, "beta": beta, "btype": "float", "layout": "C", "dtype": "float64"})
     orig_table_fn = cla.likelihood.all_points_all_clusters_log_likelihood
+    carried, carried_log = {}, {}
     try:
         for c in step_cases:
             tab = c["table"]
@@ -311,6 +312,21 @@ def run(ctx):
                 out = cla.predict_cluster_labels(st, data)
                 labels = [int(x) for x in out.point_labels]
                 monitor_case(ctx, dict(c, stream=c["stream"] + "@step"), labels, float(out.label_assignment_cost), do_brute=False)
+            # the same step on a state that an EARLIER step returned (tables of other lengths went through it before):
+            # whatever a state carries from call to call must not leak into the next labelling
+            prev = carried.get(K)
+            if prev is not None:
+                ctx.count("labelling-step-chained")
+                with ctx.guard("predict_cluster_labels (state returned by an earlier step)", {"case": describe(c)}):
+                    st2 = prev.shallow_copy() if (len(carried_log.get(K, [])) % 2) else prev
+                    st2.arguments = ua
+                    out2 = cla.predict_cluster_labels(st2, data)
+                    labels2 = [int(x) for x in out2.point_labels]
+                    monitor_case(ctx, dict(c, stream=c["stream"] + "@step-chained", history=carried_log.get(K, [])[-3:]), labels2,
+                                 float(out2.label_assignment_cost), do_brute=False)
+                    out = out2
+            carried[K] = out
+            carried_log.setdefault(K, []).append(int(T))
     finally:
         cla.likelihood.all_points_all_clusters_log_likelihood = orig_table_fn
     ctx.coverage["distribution"] = hist
